@@ -282,6 +282,39 @@ class FsmProcess(Contract):
                 ('C18:action-called-once-iff-present', eq(v.g['calls'], ite(act_none, 0, 1)))]
 
 
+def in_sync(v, term, st):
+    """the concrete terminal is the one the abstract state st describes (symbolic mode only: st is the fold of
+    process over the characters fed so far; anything write() does besides feeding characters breaks it)"""
+    if getattr(v, 'concrete', False) or st is None:
+        return True
+    return And(eq(term.state.current_state, TermCur(st)), eq(term.cur_r, TermR(st)), eq(term.cur_c, TermC(st)))
+
+
+def ansi_shape(b):
+    if hasattr(b, 'source'):
+        # concrete mode: a real terminal built by the real constructor, then put into the drawn state
+        import warnings
+        warnings.simplefilter('ignore')
+        from pexpect import ANSI as A
+        rows, cols = b.int('rows'), b.int('cols')
+        if not (1 <= rows <= 4 and 1 <= cols <= 4):
+            from harness.concrete import OutOfDomain
+            raise OutOfDomain('screen size')
+        t = A.ANSI(rows, cols)
+        t.cur_r, t.cur_c = b.int('cur_r'), b.int('cur_c')
+        t.cur_saved_r = t.cur_saved_c = 1
+        t.scroll_row_start, t.scroll_row_end = b.int('scroll_row_start'), b.int('scroll_row_end')
+        for i in range(rows):
+            for j in range(cols):
+                t.w[i][j] = b.str('w[%d][%d]' % (i, j), 's') or ' '
+        b.ghost('nextid', 0)
+        return t
+    fsm = b.obj('fsm', FSMCLS, closed=False, current_state=b.str('current_state', 's'), initial_state=b.const('INIT'),
+                input_symbol=b.any('input_symbol0'), next_state=b.any('next_state0'), action=b.any('action0'),
+                memory=b.any('memory0'))
+    return screen_shape(b, cls=ANSICLS, extra=dict(state=fsm))
+
+
 class AnsiProcess(ScreenContract):
     """ANSI.process(c) for one character of text.  Its invariant preservation is NOT proved by the engine in
     one piece: it is the composition of FSM.process (contract above), the per-action contracts and the
@@ -292,29 +325,35 @@ class AnsiProcess(ScreenContract):
     composed = True
 
     def requires(self, v):
-        return inv('inv', v.a.self, v.g) + [('one-character', eq(length(v.a.c), 1))]
+        return inv('inv', v.a.self, v.g) + [('one-character', eq(length(v.a.c), 1)),
+                                            ('state-in-sync', in_sync(v, v.a.self, v.g.get('st')))]
 
     def modifies(self, v, out):
         s = v.old.self
         return [(s, f, T.Int) for f in FIELDS if f not in ('rows', 'cols')] + \
-               [(s.w, 'cell', TGridCell()), (s.w, 'rowid', T('GridIds')), (s.w, 'rowlen', T('GridIds'))]
+               [(s.w, 'cell', TGridCell()), (s.w, 'rowid', T('GridIds')), (s.w, 'rowlen', T('GridIds')),
+                (s.state, 'current_state', T.Text), (s.state, 'input_symbol', T.Text)]
 
     def effects(self, v):
         v.g['fed'] = cat(v.g['fed'], v.old.c)
+        if v.g.get('st') is not None and not getattr(v, 'concrete', False):
+            v.g['st'] = TermProc(v.g['st'], v.old.c)
 
     def base(self, v):
         old, new = v.old.self, v.new.self
-        return inv('inv', new, v.g) + [('size', And(eq(new.rows, old.rows), eq(new.cols, old.cols)))]
+        return inv('inv', new, v.g) + [('size', And(eq(new.rows, old.rows), eq(new.cols, old.cols))),
+                                       ('state-in-sync', in_sync(v, new, v.g.get('st')))]
 
 
 class WriteLoop(LoopSpec):
     vars = {'c': T.Text}
-    ghost = {'fed': T.Text}
+    ghost = {'fed': T.Text, 'st': T.Any}
 
     def modifies(self, v):
         s = v.l.self
         return [(s, f, T.Int) for f in FIELDS if f not in ('rows', 'cols')] + \
-               [(s.w, 'cell', TGridCell()), (s.w, 'rowid', T('GridIds')), (s.w, 'rowlen', T('GridIds'))]
+               [(s.w, 'cell', TGridCell()), (s.w, 'rowid', T('GridIds')), (s.w, 'rowlen', T('GridIds')),
+                (s.state, 'current_state', T.Text), (s.state, 'input_symbol', T.Text)]
 
     def invariant(self, v):
         s = v.l.s
@@ -322,7 +361,8 @@ class WriteLoop(LoopSpec):
         return inv('inv', v.l.self, v.g) + [
             ('size', And(eq(v.l.self.rows, v.old.self.rows), eq(v.l.self.cols, v.old.self.cols))),
             # the state machine has been fed exactly the first i characters, in order, nothing else
-            ('fed-prefix', eq(v.g['fed'], cat(v.g0['fed'], sub(s, 0, i))))]
+            ('fed-prefix', eq(v.g['fed'], cat(v.g0['fed'], sub(s, 0, i)))),
+            ('state-in-sync', in_sync(v, v.l.self, v.g.get('st')))]
 
 
 class AnsiWrite(ScreenContract):
@@ -335,7 +375,21 @@ class AnsiWrite(ScreenContract):
 
     def shape(self, b):
         b.ghost('fed', b.str('fed0', 's'))
-        return dict(self=screen_shape(b, cls=ANSICLS), s=b.str('s', 's'))
+        b.ghost('st', b.any('st0'))
+        return dict(self=ansi_shape(b), s=b.str('s', 's'))
+
+    def requires(self, v):
+        return inv('inv', v.a.self, v.g) + [('state-in-sync', in_sync(v, v.a.self, v.g.get('st')))]
+
+    def instrument(self, args, g):
+        """concrete mode: record what is fed to process()"""
+        term = args['self']
+        orig = term.process
+
+        def process(c):
+            g['fed'] = g['fed'] + c
+            return orig(c)
+        term.process = process
 
     def modifies(self, v, out):
         return AnsiProcess.modifies(self, v, out)
@@ -345,7 +399,8 @@ class AnsiWrite(ScreenContract):
         return inv('inv', new, v.g) + [('size', And(eq(new.rows, old.rows), eq(new.cols, old.cols)))]
 
     def post(self, v):
-        return [('C18:feeds-exactly-the-text-in-order', eq(v.g['fed'], cat(v.g0['fed'], v.old.s)))]
+        return [('C18:feeds-exactly-the-text-in-order', eq(v.g['fed'], cat(v.g0['fed'], v.old.s))),
+                ('C18:does-nothing-else-to-the-terminal', in_sync(v, v.new.self, v.g.get('st')))]
 
 
 def register(reg):
